@@ -12,7 +12,7 @@ from concurrent.futures import ThreadPoolExecutor
 ENV = dict(os.environ, GOFLAGS="-mod=mod", GOPROXY="off", GOSUMDB="off", GOTOOLCHAIN="local")
 ENV.pop("GOWORK", None)
 ALL = ["C%02d" % i for i in range(1, 21)]
-SKIP = {"internal/asm/gen_table_amd64.go", "internal/gentable/point_mul_table.bin", "point_mul_table_amd64.s"}
+SKIP = {"internal/gentable/point_mul_table.go", "internal/asm/gen_table_amd64.go", "internal/gentable/point_mul_table.bin", "point_mul_table_amd64.s"}
 
 def anchors():
     m = collections.defaultdict(list)
@@ -105,6 +105,9 @@ def main():
     for f in files:
         rc, o = sh("/verif/bin/mutate -file /repo/%s -list" % f, "/")
         rows = [l.split("\t") for l in o.splitlines() if l.strip()]
+        src = open("/repo/" + f).read().splitlines()
+        comm = ("Multiply(", ".Add(", "XORBytes(", "Uint64Equal(", "bits.Add64(", "bits.Mul64(", "fiat.Add(", "fiat.Mul(")
+        rows = [r for r in rows if not (r[2] == "swap-args" and any(c in src[int(r[1]) - 1] for c in comm))]
         rnd.shuffle(rows)
         k = per if "fiat" not in f else max(2, per // 4)
         for r in rows[:k]:
